@@ -16,14 +16,42 @@ from .loader import AnalysisError, Program
 def corpus(prop):
     try:
         m = importlib.import_module("sa.corpus.%s" % prop)
+        cases = list(m.CASES)
     except ImportError:
-        return []
-    return list(m.CASES)
+        cases = []
+    # seeded changes written independently (sub-agents), confirmed by hand: /verif/seeded/<name>/{patch.diff, meta.json}
+    sd = os.path.join(core.VERIF, "seeded")
+    if os.path.isdir(sd):
+        import json
+
+        for name in sorted(os.listdir(sd)):
+            mp = os.path.join(sd, name, "meta.json")
+            pp = os.path.join(sd, name, "patch.diff")
+            if not (os.path.exists(mp) and os.path.exists(pp)):
+                continue
+            meta = json.load(open(mp))
+            if prop in meta.get("caught_by", []):
+                cases.append(dict(name="seeded:" + name, patch=pp, expect=None, kind="mutant"))
+    return cases
 
 
 def _apply(repo, case):
     """Return overrides dict or None if an anchor is missing."""
     ov = {}
+    if case.get("patch"):
+        from . import udiff
+
+        try:
+            files = udiff.parse(open(case["patch"]).read())
+            for rel, hunks in files.items():
+                p = os.path.join(repo, "src", "gstools", rel)
+                if not os.path.exists(p):
+                    return None
+                with open(p, encoding="utf-8") as fh:
+                    ov[rel] = udiff.apply(fh.read(), hunks)
+        except udiff.PatchError:
+            return None
+        return ov or None
     edits = case.get("edits") or [dict(file=case["file"], old=case["old"], new=case["new"])]
     for e in edits:
         rel = e["file"]
